@@ -69,6 +69,12 @@ def to_frac(x):
 # complex numbers as pairs of (concrete or symbolic) reals
 
 
+def _atomic(v):
+    """domains whose complex numbers are atomic scalars (degree types) never build Cx pairs"""
+    d = dom()
+    return d is not None and getattr(d, "atomic_complex", False) and d.is_scalar(v)
+
+
 class Cx:
     __slots__ = ("re", "im")
 
@@ -78,10 +84,12 @@ class Cx:
 
     @staticmethod
     def of(v):
-        return v if isinstance(v, Cx) else Cx(v, 0)
+        if isinstance(v, Cx) or _atomic(v):
+            return v
+        return Cx(v, 0)
 
     def __add__(self, o):
-        if isinstance(o, (Arr, Arr2)):
+        if isinstance(o, (Arr, Arr2)) or _atomic(o):
             return NotImplemented
         o = Cx.of(o)
         return Cx(self.re + o.re, self.im + o.im)
@@ -89,12 +97,14 @@ class Cx:
     __radd__ = __add__
 
     def __sub__(self, o):
-        if isinstance(o, (Arr, Arr2)):
+        if isinstance(o, (Arr, Arr2)) or _atomic(o):
             return NotImplemented
         o = Cx.of(o)
         return Cx(self.re - o.re, self.im - o.im)
 
     def __rsub__(self, o):
+        if _atomic(o):
+            return NotImplemented
         o = Cx.of(o)
         return Cx(o.re - self.re, o.im - self.im)
 
@@ -105,19 +115,21 @@ class Cx:
         return self
 
     def __mul__(self, o):
-        if isinstance(o, (Arr, Arr2)):
+        if isinstance(o, (Arr, Arr2)) or _atomic(o):
             return NotImplemented
         if not isinstance(o, Cx):
             return Cx(self.re * o, self.im * o)
         return Cx(self.re * o.re - self.im * o.im, self.re * o.im + self.im * o.re)
 
     def __rmul__(self, o):
+        if _atomic(o):
+            return NotImplemented
         if not isinstance(o, Cx):
             return Cx(o * self.re, o * self.im)
         return o.__mul__(self)
 
     def __truediv__(self, o):
-        if isinstance(o, (Arr, Arr2)):
+        if isinstance(o, (Arr, Arr2)) or _atomic(o):
             return NotImplemented
         if not isinstance(o, Cx):
             return Cx(s_div(self.re, o), s_div(self.im, o))
@@ -126,6 +138,8 @@ class Cx:
         return Cx(s_div(n.re, d), s_div(n.im, d))
 
     def __rtruediv__(self, o):
+        if _atomic(o):
+            return NotImplemented
         return Cx.of(o).__truediv__(self)
 
     def __pow__(self, n):
@@ -173,6 +187,8 @@ class Cx:
 
 
 def s_div(a, b):
+    if _atomic(a) or _atomic(b):
+        return dom().div(a, b)
     if is_conc(a) and is_conc(b):
         if b == 0:
             d = dom()
@@ -231,6 +247,8 @@ def s_abs(a):
 def s_abs2(a):
     if isinstance(a, Cx):
         return a.re * a.re + a.im * a.im
+    if _atomic(a):
+        return a * a.conjugate()
     return a * a
 
 
@@ -268,6 +286,8 @@ def s_imag(a):
 
 
 def s_eq(a, b):
+    if _atomic(a) or _atomic(b):
+        return dom().cmp("==", a, b)
     if isinstance(a, Cx) or isinstance(b, Cx):
         a, b = Cx.of(a), Cx.of(b)
         return b_and(s_eq(a.re, b.re), s_eq(a.im, b.im))
@@ -281,6 +301,8 @@ def s_cmp(op, a, b):
         return s_eq(a, b)
     if op == "!=":
         return b_not(s_eq(a, b))
+    if _atomic(a) or _atomic(b):
+        return dom().cmp(op, a, b)
     if isinstance(a, Cx) or isinstance(b, Cx):
         # numpy orders complex lexicographically but the code base only compares
         # quantities whose imaginary part is zero; keep it honest:
@@ -330,6 +352,8 @@ def s_ite(c, a, b):
         return b
     if a is b:
         return a
+    if _atomic(a) or _atomic(b):
+        return dom().ite(c, a, b)
     if isinstance(a, Cx) or isinstance(b, Cx):
         a, b = Cx.of(a), Cx.of(b)
         return Cx(s_ite(c, a.re, b.re), s_ite(c, a.im, b.im))
@@ -393,6 +417,8 @@ def s_is_int(v):
 def dtype_of_scalar(v):
     if isinstance(v, Cx):
         return "complex"
+    if _atomic(v):
+        return "complex" if getattr(v, "cx", False) else "float"
     if s_is_int(v):
         return "int"
     return "float"
@@ -407,6 +433,8 @@ def promote(a, b):
 
 def cast_to(v, dtype):
     """numpy's cast on item assignment"""
+    if _atomic(v):
+        return dom().cast(v, dtype)
     if dtype == "complex":
         return Cx.of(v)
     if dtype == "float":
@@ -426,6 +454,8 @@ def cast_to(v, dtype):
 
 
 def to_float(v):
+    if _atomic(v):
+        return v
     if isinstance(v, bool):
         return Fraction(int(v))
     if isinstance(v, int):
